@@ -19,15 +19,16 @@ and the target `news M`.  The device is the strict IOS device of `NA.Spec.AclDev
   plan on the resequenced device ends in exactly the target, if no move is suppressed.
 * `ios_plan_final_state`: for EVERY script the strict device accepts the plan and ends in the target
   with the lines of the suppressed moves left at their old positions.
-* `ios_plan_block_equiv_partial`: without remark lines (and without `log`-only changes of moved
-  lines) that final state is block-equivalent to the target, for every script.
+* `ios_plan_block_equiv_partial`: without remark lines that final state is block-equivalent to the
+  target modulo `log` (same verdict for every packet), for every script;
+  `ios_plan_block_equiv_exact_partial`: pure swaps if no moved line changes `log`.
 * `ios_remark_suppression_counterexample` (F-C02r): with remark lines the current code does not
   even converge up to block equivalence.  `ios_split_block_move_not_suppressed`: regression for
   the committed fix of F-C02.
 
-Not proved: block equivalence when a suppressed move also changes the `log` attribute (then the
-device keeps the old attribute; the lists are equal only modulo `mkey`).  With remark lines the
-statement is false (F-C02r).
+With remark lines the statement is false (F-C02r).  Note (from `ios_plan_final_state`): when a
+suppressed move also changes the `log` attribute the device keeps the OLD attribute (the lists
+then agree only modulo `log`).
 -/
 namespace NA.Acl.IosAclProps
 open NA.Acl
@@ -165,32 +166,62 @@ theorem ios_plan_final_state (M : List Cell)
   obtain ⟨tr, ht, hl⟩ := iosExec_trace _ _ _ h
   exact ⟨g, tr, _, hg, ht, hl, numbered_lines M _⟩
 
-/-- Suppressed moves allowed: if every suppressed move is harmless (`SupprOK`: same line, and all
-cells between old and new position that stay on the device have the same action or are remarks),
-the device ends block-equivalent to the target — hence with the same verdict for every packet. -/
+/-- Suppressed moves allowed: if every suppressed move is harmless (`SupprOK`: the line kept at the
+old position differs at most in `log`, and all cells between old and new position that stay on the
+device have the same action or are remarks), the device ends block-equivalent (modulo `log`) to
+the target — hence with the same verdict for every packet. -/
 theorem ios_plan_block_equiv_of_supprOK (M : List Cell)
     (hboth : (M.any fun c => c.old && c.new) = true) (hjunk : noJunk M = true)
     (hruns : runsShort M)
     (hno : ((olds M).map (·.mkey)).Nodup) (hnn : ((news M).map (·.mkey)).Nodup)
     (dev : IosAcl) (hdev : iosLines dev = olds M)
     (hok : ∀ g : Nat → Bool, planIOS M = (addIdx M).flatMap (cellOpsG M g) ++ delsOf M →
-      SupprOK M ((addIdx M).filter (supprAt M g))) :
+      SupprOK LineEqv M ((addIdx M).filter (supprAt M g))) :
     ∃ tr s, iosTrace (iosReseq dev 10000 10000) (planIOS M) = some tr ∧
       (iosReseq dev 10000 10000 :: tr).getLast? = some s ∧
-      BlockEq (iosLines s) (news M) ∧ ∀ p, eval (iosLines s) p = eval (news M) p := by
+      BlockEqG LineEqv (iosLines s) (news M) ∧ ∀ p, eval (iosLines s) p = eval (news M) p := by
   obtain ⟨g, tr, s, hg, ht, hl, hs⟩ := ios_plan_final_state M hboth hjunk hruns hno hnn dev hdev
-  have hbe : BlockEq (iosLines s) (news M) := by
+  have hbe : BlockEqG LineEqv (iosLines s) (news M) := by
     rw [hs]
-    exact finalMask_blockEq M hno hnn _ (fun j hj => (List.mem_filter.mp hj).1)
+    exact finalMask_blockEq LineEqv (fun _ _ _ h => h.swappable) M hno hnn _
+      (fun j hj => (List.mem_filter.mp hj).1)
       (List.Nodup.sublist List.filter_sublist
         (List.Nodup.sublist List.filter_sublist List.nodup_range)) (hok g hg)
-  exact ⟨tr, s, ht, hl, hbe, fun p => hbe.eval_eq p⟩
+  exact ⟨tr, s, ht, hl, hbe, fun p => hbe.eval_eq (fun _ _ h => h.sem) p⟩
 
-/-- `ios_plan_block_equiv` for ACLs WITHOUT remark lines (the complement of F-C02r), and where a
-deleted and an inserted line with the same `mkey` are the same line (no `log`-only change among
-the moved lines): whatever moves the planner suppresses, the strict device accepts the plan and
-ends block-equivalent to the target, with the same verdict for every packet. -/
+/-- `ios_plan_block_equiv` for ACLs WITHOUT remark lines (the complement of F-C02r): whatever moves
+the planner suppresses, the strict device accepts the plan and ends block-equivalent to the target
+modulo `log` (`BlockEqG LineEqv`: same-action swaps, and lines replaced by lines with the same
+`mkey`, action and match), with the same verdict for every packet.  `hwf`: `mkey` determines
+action and match (it is the line text without `log`). -/
 theorem ios_plan_block_equiv_partial (M : List Cell)
+    (hboth : (M.any fun c => c.old && c.new) = true) (hjunk : noJunk M = true)
+    (hruns : runsShort M)
+    (hno : ((olds M).map (·.mkey)).Nodup) (hnn : ((news M).map (·.mkey)).Nodup)
+    (hnr : ∀ c ∈ M, c.line.remark = false)
+    (hwf : ∀ i ∈ delIdx M, ∀ j ∈ addIdx M,
+      (M.getD i default).line.mkey = (M.getD j default).line.mkey →
+      LineEqv (M.getD i default).line (M.getD j default).line)
+    (dev : IosAcl) (hdev : iosLines dev = olds M) :
+    ∃ tr s, iosTrace (iosReseq dev 10000 10000) (planIOS M) = some tr ∧
+      (iosReseq dev 10000 10000 :: tr).getLast? = some s ∧
+      BlockEqG LineEqv (iosLines s) (news M) ∧ ∀ p, eval (iosLines s) p = eval (news M) p := by
+  obtain ⟨g, hplan, hg⟩ := plan_general' M hboth hnn
+  have h := exec_general M hjunk hruns hno hnn g
+  rw [← hplan, ← reseq_numbered M dev hdev] at h
+  obtain ⟨tr, ht, hl⟩ := iosExec_trace _ _ _ h
+  have hbe : BlockEqG LineEqv
+      (iosLines (numbered M (finalMask M ((addIdx M).filter (supprAt M g))))) (news M) := by
+    rw [numbered_lines]
+    exact finalMask_blockEq LineEqv (fun _ _ _ h => h.swappable) M hno hnn _
+      (fun j hj => (List.mem_filter.mp hj).1)
+      (List.Nodup.sublist List.filter_sublist
+        (List.Nodup.sublist List.filter_sublist List.nodup_range))
+      (supprOK_noremark LineEqv (fun _ _ h => h.act) M hjunk hruns hnr hwf g hg)
+  exact ⟨tr, _, ht, hl, hbe, fun p => hbe.eval_eq (fun _ _ h => h.sem) p⟩
+
+/-- The same with pure swaps (`BlockEq`), if no moved line changes its `log` attribute. -/
+theorem ios_plan_block_equiv_exact_partial (M : List Cell)
     (hboth : (M.any fun c => c.old && c.new) = true) (hjunk : noJunk M = true)
     (hruns : runsShort M)
     (hno : ((olds M).map (·.mkey)).Nodup) (hnn : ((news M).map (·.mkey)).Nodup)
@@ -206,13 +237,15 @@ theorem ios_plan_block_equiv_partial (M : List Cell)
   have h := exec_general M hjunk hruns hno hnn g
   rw [← hplan, ← reseq_numbered M dev hdev] at h
   obtain ⟨tr, ht, hl⟩ := iosExec_trace _ _ _ h
-  have hbe : BlockEq (iosLines (numbered M (finalMask M ((addIdx M).filter (supprAt M g)))))
-      (news M) := by
+  have hbe : BlockEq
+      (iosLines (numbered M (finalMask M ((addIdx M).filter (supprAt M g))))) (news M) := by
     rw [numbered_lines]
-    exact finalMask_blockEq M hno hnn _ (fun j hj => (List.mem_filter.mp hj).1)
+    apply BlockEqG.toBlockEq
+    exact finalMask_blockEq Eq (fun _ _ _ h hs => h ▸ hs) M hno hnn _
+      (fun j hj => (List.mem_filter.mp hj).1)
       (List.Nodup.sublist List.filter_sublist
         (List.Nodup.sublist List.filter_sublist List.nodup_range))
-      (supprOK_noremark M hjunk hruns hnr hsame g hg)
+      (supprOK_noremark Eq (fun _ _ h => h ▸ rfl) M hjunk hruns hnr hsame g hg)
   exact ⟨tr, _, ht, hl, hbe, fun p => hbe.eval_eq p⟩
 
 /-! ## 4. Witnesses -/
@@ -309,9 +342,12 @@ example : planIOS MX = [] ∧ olds MX ≠ news MX ∧
     (∀ c ∈ MX, c.line.remark = false) ∧
     (∀ i ∈ delIdx MX, ∀ j ∈ addIdx MX,
       (MX.getD i default).line.mkey = (MX.getD j default).line.mkey →
-      (MX.getD i default).line = (MX.getD j default).line) :=
+      (MX.getD i default).line = (MX.getD j default).line) ∧
+    (∀ i ∈ delIdx MX, ∀ j ∈ addIdx MX,
+      (MX.getD i default).line.mkey = (MX.getD j default).line.mkey →
+      LineEqv (MX.getD i default).line (MX.getD j default).line) :=
   ⟨by decide, by decide, by decide, by decide, (runsShortB_iff _).mp (by decide), by decide,
-   by decide, by decide, by decide⟩
+   by decide, by decide, by decide, by decide⟩
 
 example : BlockEq [W.p1, W.p2, W.denyN] [W.p2, W.p1, W.denyN] :=
   BlockEq.swap [] [W.denyN] W.p1 W.p2 (Or.inr (Or.inr rfl))
@@ -325,6 +361,7 @@ def obligations : List Lean.Name := [
   ``ios_exec_reaches_target, ``ios_plan_converges_no_moves_partial,
   ``ios_plan_converges_no_suppression_partial, ``ios_plan_shape, ``ios_plan_final_state,
   ``ios_plan_block_equiv_of_supprOK, ``ios_plan_block_equiv_partial,
+  ``ios_plan_block_equiv_exact_partial,
   ``ios_remark_suppression_counterexample, ``ios_split_block_move_not_suppressed]
 
 end NA.Acl.IosAclProps
